@@ -238,6 +238,43 @@ pub fn record_one(run: usize, p: &Problem, seed: u64) -> (Vec<Value>, usize, usi
             Err(e) => lines.push(json!({"ev": "Panic", "run": run, "kind": "solve_twice", "msg": crate::rec_ipm::panic_msg(e)})),
         }
     }
+    {
+        // the same problem reached through the update API: built on other q and b (same patterns), then given the base's data
+        // through the owned (indices, values) form in descending order.  And a setup-time switch flipped on the live object,
+        // which the constructor has already consumed: bit for bit the base run.
+        let (P, A) = (p.P.to_clarabel(), p.A.to_clarabel());
+        let bound = clarabel::get_infinity();
+        let finite = p.b.iter().all(|v| v.abs() < bound);
+        let r = catch_unwind(AssertUnwindSafe(|| {
+            let q0: Vec<f64> = p.q.iter().enumerate().map(|(i, v)| 3.0 * v + 0.25 * (i as f64 + 1.0)).collect();
+            let b0: Vec<f64> = p.b.iter().enumerate().map(|(i, v)| 0.5 * v + 0.125 * (i as f64 + 1.0)).collect();
+            let mut s = DefaultSolver::new(&P, &q0, &A, &b0, &p.clarabel_cones(), p.settings());
+            let upd = finite && s.is_data_update_allowed();
+            let a = if upd {
+                let iq: Vec<usize> = (0..p.q.len()).rev().collect();
+                let vq: Vec<f64> = iq.iter().map(|&i| p.q[i]).collect();
+                s.update_q(&(iq, vq)).expect("update_q");
+                let ib: Vec<usize> = (0..p.b.len()).rev().collect();
+                let vb: Vec<f64> = ib.iter().map(|&i| p.b[i]).collect();
+                s.update_b(&(ib, vb)).expect("update_b");
+                s.solve();
+                Some(Sol { status: s.solution.status, x: s.solution.x.clone(), s: s.solution.s.clone(), z: s.solution.z.clone(), obj: s.solution.obj_val, obj_d: s.solution.obj_val_dual, iters: s.solution.iterations })
+            } else { None };
+            let mut f = DefaultSolver::new(&P, &p.q, &A, &p.b, &p.clarabel_cones(), p.settings());
+            f.settings.equilibrate_enable = !f.settings.equilibrate_enable;
+            f.solve();
+            let b = Sol { status: f.solution.status, x: f.solution.x.clone(), s: f.solution.s.clone(), z: f.solution.z.clone(), obj: f.solution.obj_val, obj_d: f.solution.obj_val_dual, iters: f.solution.iterations };
+            (a, b)
+        }));
+        match r {
+            Ok((a, b)) => {
+                let mut push = |e: Value| { if e["comparable"] == true { compared += 1; } else { skipped += 1; } lines.push(e); };
+                if let Some(a) = a { push(pair_event(run, "via_update", p, &base, &a.x, &a.s, &a.z, a.status, (a.obj, a.obj_d), false, true)); }
+                push(pair_event(run, "setup_switch_flipped_after_build", p, &base, &b.x, &b.s, &b.z, b.status, (b.obj, b.obj_d), true, bits_eq(&base, &b)));
+            }
+            Err(e) => lines.push(json!({"ev": "Panic", "run": run, "kind": "via_update", "msg": crate::rec_ipm::panic_msg(e)})),
+        }
+    }
     if run % 4 == 0 {
         let other = gen::planted_feasible(rng, &o);
         let handles: Vec<_> = (0..4).map(|k| { let pk = if k == 3 { other.clone() } else { p.clone() }; std::thread::spawn(move || solve(&pk)) }).collect();
